@@ -128,6 +128,20 @@ def guarded (c : Nat) (clean : Bool) (h : Handler) : Bool :=
 def ownerAfterWrite (h : Handler) : Bool :=
   h.items.any fun it => it.kind == 0 && it.cls == 1 && it.wb
 
+/-- consistency guards: a field of the stored position (tag) is compared with what the message's ids describe -/
+def hasGuardTag (c : Nat) (tag : String) (route : List Item) : Bool :=
+  route.any fun it => it.kind == 0 && it.cls == c && it.tag == tag
+
+/-- every exit that can follow an un-keyed position read is dominated by a stand-alone comparison of position field `tag` -/
+def consistencyGuarded (h : Handler) (tag : String) : Bool :=
+  hasExit h && (exits h.items).all fun p => !namesAt p.1 p.2 || hasGuardTag 7 tag (routeOf p.1 p.2)
+
+/-- the position fields a handler compares unconditionally (in order of first occurrence) -/
+def consistencyTags (h : Handler) : List String :=
+  ((h.items.filter fun it => it.kind == 0 && it.cls == 7 && !it.cond).map (·.tag)).eraseDups
+
+def hasWeakConsistency (h : Handler) : Bool := h.items.any fun it => it.kind == 0 && it.cls == 8
+
 def swallowsPrice (h : Handler) : Bool := h.items.any fun it => it.kind == 4 && it.cls == 5
 def hasPriceGuard (h : Handler) : Bool := h.items.any fun it => it.kind == 0 && it.cls == 5
 def qname (h : Handler) : String := h.module ++ "." ++ h.name
@@ -190,6 +204,14 @@ the operations that value an amount in dollars (collateral ratio, LTV, supply ca
 def priceNeeded : List String := [
   "vault.MsgCreate", "vault.MsgWithdraw", "vault.MsgDraw", "vault.MsgDepositAndDraw",
   "lend.Lend", "lend.Deposit", "lend.Borrow", "lend.Draw", "lend.BorrowAlternate"]
+
+/-- C12: handlers that carry a position id and descriptive ids; a message whose descriptive ids do not describe the named
+position must be REJECTED (for the others an accepted message that changes nothing is tolerated) -/
+def consistencyExpected : List String := [
+  "vault.MsgDeposit", "vault.MsgWithdraw", "vault.MsgDraw", "vault.MsgRepay", "vault.MsgClose", "vault.MsgDepositAndDraw",
+  "vault.MsgDepositStableMint", "vault.MsgWithdrawStableMint", "locker.MsgDepositAsset", "locker.MsgWithdrawAsset",
+  "locker.MsgCloseLocker", "locker.MsgLockerRewardCalc", "lend.Borrow", "auctionsV2.MsgWithdrawLimitBid",
+  "liquidation.MsgLiquidateVault"]
 
 /-- C12 kill switch -/
 def adminOnly : List String := ["esm.MsgKillSwitch"]
